@@ -311,30 +311,50 @@ func c03Q9(c *Ctx, w *World) {
 	ceBlock := w.Field(uconPkg, "CommitEvent", "Block")
 	getVotes := w.FuncObj(uconPkg, "VotesWrapper", "getVotes")
 	// (1) commit: the Block of the event is a lookup under the hash whose votes are attached
+	// (the assembly of the event may sit in a small helper of commit: its parameters stand for commit's arguments)
+	fns := withSplitOffHelpers(w, commit)
+	bindSplitOff(w, commit)
 	var lookup *ssa.Call
-	for _, fw := range fieldWrites(commit) {
-		if fw.Field != ceBlock {
-			continue
-		}
-		st, isSt := fw.Instr.(*ssa.Store)
-		if !isSt {
-			continue
-		}
-		backward(st.Val, func(v ssa.Value) bool {
-			if cc, ok := v.(*ssa.Call); ok && lookup == nil {
-				if _, isB := cc.Call.Value.(*ssa.Builtin); !isB {
-					lookup = cc
-				}
-				return false
+	for _, fn := range fns {
+		for _, fw := range fieldWrites(fn) {
+			if fw.Field != ceBlock {
+				continue
 			}
-			return lookup == nil
-		})
+			st, isSt := fw.Instr.(*ssa.Store)
+			if !isSt {
+				continue
+			}
+			v := bound(stripConv(st.Val))
+			for i := 0; i < 8 && lookup == nil; i++ {
+				switch x := v.(type) {
+				case *ssa.Call:
+					if _, isB := x.Call.Value.(*ssa.Builtin); !isB {
+						lookup = x
+					}
+				case *ssa.Phi:
+					if len(x.Edges) > 0 {
+						v = bound(stripConv(x.Edges[0]))
+						continue
+					}
+				case *ssa.UnOp:
+					if al, isAl := x.X.(*ssa.Alloc); isAl && x.Op == token.MUL {
+						for _, r := range *al.Referrers() {
+							if s2, ok := r.(*ssa.Store); ok && s2.Addr == ssa.Value(al) {
+								v = bound(stripConv(s2.Val))
+							}
+						}
+						continue
+					}
+				}
+				break
+			}
+		}
 	}
 	hashIdx := -1
 	var hashParam *ssa.Parameter
 	if lookup != nil {
 		for i, a := range lookup.Call.Args {
-			if p, ok := stripConv(a).(*ssa.Parameter); ok && p.Parent() == commit && ownerName(p.Type()) == "Hash" {
+			if p, ok := bound(stripConv(a)).(*ssa.Parameter); ok && p.Parent() == commit && ownerName(p.Type()) == "Hash" {
 				if hashIdx < 0 {
 					hashIdx, hashParam = i, p
 				}
@@ -346,17 +366,19 @@ func c03Q9(c *Ctx, w *World) {
 	why := "the block of the CommitEvent is not the result of a lookup under one of commit's hash parameters"
 	nVotes := 0
 	if okCommit {
-		for _, gv := range callsTo(commit, getVotes) {
-			nVotes++
-			found := false
-			for _, a := range callArgs(gv) {
-				if stripConv(a) == ssa.Value(hashParam) {
-					found = true
+		for _, fn := range fns {
+			for _, gv := range callsTo(fn, getVotes) {
+				nVotes++
+				found := false
+				for _, a := range callArgs(gv) {
+					if bound(stripConv(a)) == ssa.Value(hashParam) {
+						found = true
+					}
 				}
-			}
-			if !found {
-				okCommit = false
-				why = "the votes attached to the commit are not taken for the hash the block was looked up under (" + w.Pos(gv.Pos()) + ")"
+				if !found {
+					okCommit = false
+					why = "the votes attached to the commit are not taken for the hash the block was looked up under (" + w.Pos(gv.Pos()) + ")"
+				}
 			}
 		}
 		if nVotes == 0 {
@@ -364,7 +386,11 @@ func c03Q9(c *Ctx, w *World) {
 			why = "no getVotes call found in commit"
 		}
 	}
-	c.Check(fname(commit)+"#block-and-votes-of-one-hash", commit.Pos(), okCommit, ifelse(okCommit, fmt.Sprintf("block = lookup(%s, …), %d getVotes(…, %s, …)", hashParam.Name(), nVotes, hashParam.Name()), why+": the header assembled from the commit carries signatures over another block's hash and is rejected by every verifier"))
+	if okCommit {
+		c.Pass(fname(commit)+"#block-and-votes-of-one-hash", commit.Pos(), fmt.Sprintf("block = lookup(%s, …), %d getVotes(…, %s, …)", hashParam.Name(), nVotes, hashParam.Name()))
+	} else {
+		c.Fail(fname(commit)+"#block-and-votes-of-one-hash", commit.Pos(), why+": the header assembled from the commit carries signatures over another block's hash and is rejected by every verifier")
+	}
 	if !okCommit {
 		return
 	}
